@@ -381,7 +381,7 @@ class Explorer:
         self.work = [[]]
         self.paths = []
         import os
-        t_end = time.time() + float(os.environ.get('VERIF_EXPLORE_TIMEOUT') or (7200 if os.environ.get('VERIF_TIER') == 'thorough' or '--tier thorough' in ' '.join(sys.argv) else 1800))
+        t_end = time.time() + float(os.environ.get('VERIF_EXPLORE_TIMEOUT') or (7200 if os.environ.get('VERIF_TIER') == 'thorough' or '--tier thorough' in ' '.join(sys.argv) else 900))
         while self.work:
             if len(self.paths) > self.max_paths:
                 raise Unsupported("path budget exceeded (%d)" % self.max_paths)
